@@ -20,6 +20,8 @@
 #include "celeritas/em/msc/detail/MscStepToGeo.hh"
 #include "celeritas/em/msc/detail/UrbanMscHelper.hh"
 #include "celeritas/grid/EnergyLossCalculator.hh"
+#include "celeritas/grid/GenericCalculator.hh"
+#include "celeritas/grid/GenericGridData.hh"
 #include "celeritas/grid/InverseRangeCalculator.hh"
 #include "celeritas/grid/RangeCalculator.hh"
 #include "celeritas/grid/XsCalculator.hh"
@@ -242,6 +244,34 @@ int main()
             detail::MscStepFromGeo from_geo(params, step, range, lambda);
             for (double g : gsteps)
                 os << ' ' << hex(from_geo(g));
+        }
+        else if (cmd == "generic" || cmd == "geninv" || cmd == "genmk")
+        {
+            // GenericCalculator on a nonuniform grid: operator(), from_inverse, make_inverse
+            auto xs = rdvec(is);
+            auto ys = rdvec(is);
+            auto args = rdvec(is);
+            HostItems<real_type> reals;
+            std::vector<double> pad{-3.0, -5.0};
+            make_builder(&reals).insert_back(pad.begin(), pad.end());
+            GenericGridRecord rec;
+            rec.grid = make_builder(&reals).insert_back(xs.begin(), xs.end());
+            rec.value = make_builder(&reals).insert_back(ys.begin(), ys.end());
+            HostRealsRef ref;
+            ref = reals;
+            GenericCalculator fwd(rec, ref);
+            for (double a : args)
+            {
+                if (cmd == "generic")
+                    os << ' ' << hex(fwd(a));
+                else if (cmd == "geninv")
+                    os << ' ' << hex(GenericCalculator::from_inverse(rec, ref)(a));
+                else
+                    os << ' ' << hex(fwd.make_inverse()(a));
+            }
+            os << " |";
+            for (size_type i = 0; i < fwd.grid().size(); ++i)
+                os << ' ' << hex(fwd[i]);
         }
         else
         {
